@@ -73,6 +73,18 @@ CHECKS['C12'] = ('fault_enumeration',
    'K=30 quick / 200 thorough renders per sink/renderer; watchdog expiry is inconclusive, never a violation.',
    'DESIGN.md 2/C12')
 
+
+CHECKS['C10'] = ('exploration',
+   'Go race detector (report blocks parsed and de-duplicated by racing sdfx functions) over a concurrent Evaluate hammer and parallel renders in race-instrumented child processes, plus bitwise comparison of concurrent values with a sequential baseline',
+   'Every catalogued shape and random expression trees (with Cache2D wrappers) are evaluated by NumCPU goroutines in different PRNG orders with repeats, then rendered with NewMarchingCubesUniform; each child announces the shape before it runs so that a fatal runtime error (concurrent map writes) is attributable; overlap is measured (in-flight counter).',
+   'The race detector only reports races on accesses that executed in the schedules observed (3 quick / 12 thorough repetitions per shape).',
+   'DESIGN.md 2/C10')
+CHECKS['C11'] = ('exploration',
+   'exactly-once / order monitor over unambiguous histories: uniquely numbered items written by scripted multi-producer renderers are read back from every sink (slice, caller-owned channel, STL count+records, go3mf, dxf reader, SVG XML); race detector underneath',
+   'Scripted Render3/Render2 implementations drive ToTriangles/ToSTL/To3MF/ToDXF/ToSVG and the bare buffers with counts around the flush threshold, batch partitions incl. empty and straddling batches, 1..8 producer goroutines with PRNG yields and slow/fast consumers; each id must be delivered exactly once (sequence preserved for one producer) and file count fields must agree. Distinct interleaving fingerprints (producer sequence at the sink) are counted.',
+   'Ids are float32-exact so the history is unambiguous; multiset equality is what the statement demands for several producers (batch contiguity is not demanded).',
+   'DESIGN.md 2/C11')
+
 NOT_YET = 'monitor not built yet in this round (planned in DESIGN.md section 2); not claimed until its check exists'
 NA = {}
 
